@@ -55,3 +55,8 @@ package k8s
 //@   requires c != nil
 //@   panics
 //@   ensures result0 != nil
+
+//@ for C09 C15
+//@ # interface contract (assumed; the implementation builds the list from non-nil pod objects)
+//@ func Kubernetes.GetLocalPods
+//@   ensures-assumed forall i int :: 0 <= i && i < len(result0) ==> result0[i] != nil
